@@ -25,7 +25,8 @@ type LockSvc struct {
 // NewLockSvc wires AServer and n AClients to a spec-faithful bag network and hasLock.
 func NewLockSvc(n int, pick func(what string, k int) int, choose func(in *sched.Instance, id string, k uint) uint) *LockSvc {
 	ls := &LockSvc{Sim: sched.New(), Store: specenv.NewStore(), N: n}
-	ls.Store.Pick = pick
+	ls.Sim.Draw = pick
+	ls.Store.Pick = func(what string, k int) int { return ls.Sim.Ask(what, k) }
 	ls.Store.Closing = func() bool { return ls.Sim.Closing }
 	ls.Sim.Choose = choose
 	var nodes, empties, falses []tlx.Val
